@@ -4,6 +4,7 @@ from ..cfg import Body
 from ..report import where
 from ..facts import in_module
 from .. import storemodel as sm, pairing
+from .. import storerules as sr
 
 LEVEL = "other"
 STORE_ERR_FNS = ("set_node_property",)
@@ -37,6 +38,10 @@ def dropped_results(F, callee_suffixes, module_prefix="samyama::query::executor:
 def run(ctx, F, cg):
     ctx.rule("R11a", "the store populates the unique-constraint index (constraint_insert), so every mutator that ends a node's hold on a value (property overwrite, property removal, label removal, node deletion) must reach a removal from that index; otherwise the value stays taken forever and a legitimate write is refused")
     ctx.rule("R11b", "in set_node_property the constraint lookup dominates every write to the column/row stores and a violation returns before them")
+    ctx.rule("R11c", "constraint-index maintenance never releases the old value after claiming the new one in one pass (old == new would free a value the node still holds)")
+    ctx.rule("R11d", "every fallible store mutator rejects (constraint violation, missing node) before its first mutation: a refused write leaves the constraint index and the node untouched")
+    sr.remove_before_insert(ctx, F, cg, "R11c", pairs=(("constraint_insert", "constraint_remove"),))
+    sr.validate_then_mutate(ctx, F, cg, "R11d", kinds=("prop-set", "prop-kill", "label-add", "label-kill", "node-add"), floor=3)
     ctx.rule("R04b", "no Result of a constraint-checking store write is discarded by a write operator (a swallowed ConstraintViolation reports success and C05 cannot even see the failure)")
     pairing.matrix(ctx, F, cg, "R11a", "constraint-index", ["IndexManager::constraint_insert"],
                    ["IndexManager::constraint_remove", "IndexManager::constraint_delete", "IndexManager::constraint_release", "IndexManager::release_unique_value"],
